@@ -24,7 +24,7 @@ ASSUMPTIONS = ["the L2 projection on a spline space is unique, so equality with 
 def bounds(tier, seed):
     q = tier == "quick"
     return {"wide": {"pmax": 3 if q else 4, "kmax": 1}, "deep": {"pmax": 1 if q else 2, "kmax": 2},
-            "seed_alphabet_wide_pmax": 2 if q else 4, "alphabets": al.tier_alphabets(tier, seed)}
+            "seed_alphabet_wide_pmax": 2 if q else 3, "alphabets": al.tier_alphabets(tier, seed)}
 
 
 def block(K, blk, tier):
@@ -34,6 +34,8 @@ def block(K, blk, tier):
         pmax = min(pmax, b["seed_alphabet_wide_pmax"])
     if blk == "deep" and K != "K0" and tier == "quick":
         return []
+    if blk == "deep" and K != "K0":
+        pmax = 1  # thorough: degree-2 targets with two interior knots on the core alphabet only
     return [(p, list(U)) for p, U in al.knotvectors(K, pmax, b[blk]["kmax"])]
 
 
